@@ -5,6 +5,7 @@ package main
 
 import (
 	"fmt"
+	"go/types"
 	"strconv"
 	"strings"
 )
@@ -148,4 +149,73 @@ func TestGovcReplay(t *testing.T) {
 		return src, out, ok, err
 	}
 	specialReplays["server.(*Server).handleConnection#post:slot-returned"] = c14
+}
+
+func init() {
+	// C09: the solver's scenario is abstract (uninterpreted parser): the offered
+	// key was already collected and the remaining input is non-empty but holds
+	// no further key. Concretised with a real key followed by a comment line.
+	c09 := func(P *Program, v *ObligResult) (string, string, bool, error) {
+		fn := fnOfObligation(P, v.Name)
+		g := &goGen{P: P, model: v.Model, pkg: fn.Pkg.Pkg, imports: map[string]bool{"testing": true, "fmt": true,
+			"crypto/ed25519": true, "crypto/rand": true, "golang.org/x/crypto/ssh": true, modPath + "/internal/user/server": true}}
+		body := `pub, _, err := ed25519.GenerateKey(rand.Reader)
+		if err != nil {
+			t.Skip(err)
+		}
+		key, err := ssh.NewPublicKey(pub)
+		if err != nil {
+			t.Skip(err)
+		}
+		u, err := user.New("replayuser", "127.0.0.1:1234")
+		if err != nil {
+			t.Skip(err)
+		}
+		file := append(ssh.MarshalAuthorizedKey(key), []byte("# rotated 2024-01-01, see ticket 42\n")...)
+		perm, verr := verifyAuthorizedKeys(u, file, key)
+		if verr != nil || perm == nil {
+			panic(fmt.Sprintf("a key listed in a well-formed authorized_keys file (key line followed by a comment line) is rejected: %v", verr))
+		}`
+		src := g.testFile(fn.Pkg.Pkg, body)
+		out, ok, err := runOverlayTest(P, fn.Pkg.Pkg, src)
+		return src, out, ok, err
+	}
+	specialReplays["ssh/server.verifyAuthorizedKeys#post:listed-key-accepted"] = c09
+}
+
+func init() {
+	// C16 lossless colouring: call the real painter with the model's arguments
+	// on a fresh builder and compare the output with escape sequences removed.
+	lossless := func(textParam string) func(P *Program, v *ObligResult) (string, string, bool, error) {
+		return func(P *Program, v *ObligResult) (string, string, bool, error) {
+			fn := fnOfObligation(P, v.Name)
+			g := &goGen{P: P, model: v.Model, pkg: fn.Pkg.Pkg, imports: map[string]bool{"testing": true, "fmt": true, "strings": true, "regexp": true}}
+			var args []string
+			for _, p := range fn.Params {
+				if p.Name() == "sb" {
+					args = append(args, "sb")
+					continue
+				}
+				args = append(args, g.expr(p.Type(), p.Name(), 0))
+			}
+			textExpr := g.expr(types.Typ[types.String], textParam, 0)
+			body := fmt.Sprintf(`sb := new(strings.Builder)
+		%s
+		%s(%s)
+		plain := regexp.MustCompile("\x1b\\[[0-9;]*m").ReplaceAllString(sb.String(), "")
+		if plain != %s {
+			panic(fmt.Sprintf("colouring altered the text: coloured output without escapes is %%q, the text is %%q", plain, %s))
+		}`, strings.Join(g.pre, "\n\t\t"), fn.Name(), strings.Join(args, ", "), textExpr, textExpr)
+			g.pre = nil
+			src := g.testFile(fn.Pkg.Pkg, body)
+			out, ok, err := runOverlayTest(P, fn.Pkg.Pkg, src)
+			return src, out, ok, err
+		}
+	}
+	for _, f := range []string{"Paint", "PaintWithAttr", "PaintWithAttrs"} {
+		specialReplays["color."+f+"#post:lossless"] = lossless("text")
+	}
+	for _, f := range []string{"paintRemote", "paintClient", "paintServer"} {
+		specialReplays["color/brush."+f+"#post:lossless"] = lossless("line")
+	}
 }
